@@ -16,6 +16,7 @@
      AggSigDB.Store            <- SigAgg.Subscribe             (LAggregate)
      Broadcaster.Broadcast     <- SigAgg.Subscribe             (LAggregate)
 
+   that AggSigDB.Store is subscribed to SigAgg BEFORE Broadcaster.Broadcast (order_check below),
    and that every WireOption only wraps a field around its own previous value (tracing, tracking
    and async retry call clone.F from the replacement of F and nothing else of the wiring). *)
 From Coq Require Import List String Bool.
@@ -62,8 +63,30 @@ Fixpoint nodup_str (l : list string) : bool :=
 Definition bindings_check (bs : list binding) : bool :=
   nodup_str (map b_field bs) && nodup_str (map (fun b => b_comp b ++ "." ++ b_method b) bs).
 
+(* ORDER.  The edge list keeps the order of the statements of Wire, which is the order in which a
+   producer calls its subscribers (Subscribe appends, the producer walks the list and stops at the
+   first error).  SigAgg must hand an aggregate to AggSigDB.Store BEFORE Broadcaster.Broadcast:
+   aggsigdb refuses a second, different object for a key ("mismatching data") and sigagg.Aggregate
+   then returns before the broadcaster is called -- the store is the gate in front of the beacon
+   node (defence in depth behind the single-root theorem). *)
+Fixpoint index_of (f : edge -> bool) (es : list edge) : option nat :=
+  match es with
+  | [] => None
+  | e :: r => if f e then Some 0 else option_map S (index_of f r)
+  end.
+
+Definition subscribed_before (es : list edge) (p pm c1 m1 c2 m2 : string) : bool :=
+  match index_of (fun e => is_prod e p pm && is_cons e c1 m1) es,
+        index_of (fun e => is_prod e p pm && is_cons e c2 m2) es with
+  | Some i, Some j => Nat.ltb i j
+  | _, _ => false
+  end.
+
+Definition order_check (es : list edge) : bool :=
+  subscribed_before es "SigAgg" "Subscribe" "AggSigDB" "Store" "Broadcaster" "Broadcast".
+
 Definition wiring_check (bs : list binding) (es : list edge) (ws : list wrapper) : bool :=
-  bindings_check bs && edges_check es && forallb wrapper_ok ws.
+  bindings_check bs && edges_check es && order_check es && forallb wrapper_ok ws.
 
 (* Sanity of the checker itself: it rejects the wirings a C01 violation would come from. *)
 Definition good_edges : list edge :=
@@ -86,6 +109,17 @@ Proof. vm_compute. reflexivity. Qed.
 Example check_rejects_missing_edge :
   edges_check (filter (fun e => negb (is_cons e "SigAgg" "Aggregate")) good_edges) = false.
 Proof. vm_compute. reflexivity. Qed.
+
+Example check_accepts_order : order_check good_edges = true.
+Proof. vm_compute. reflexivity. Qed.
+
+(* the broadcaster subscribed to the aggregator before the aggregate store *)
+Example check_rejects_bcast_before_aggsigdb :
+  order_check (mkEdge "SigAgg" "Subscribe" "Broadcaster" "Broadcast" Direct
+               :: filter (fun e => negb (is_cons e "Broadcaster" "Broadcast")) good_edges) = false
+  /\ edges_check (mkEdge "SigAgg" "Subscribe" "Broadcaster" "Broadcast" Direct
+                  :: filter (fun e => negb (is_cons e "Broadcaster" "Broadcast")) good_edges) = true.
+Proof. split; vm_compute; reflexivity. Qed.
 
 Example check_rejects_redirecting_option :
   wrapper_ok (mkWrapper "WithX" "BroadcasterBroadcast" ["AggSigDBStore"] []) = false.
